@@ -78,6 +78,41 @@ def status_stores(f, variant=None, cleanup=False):
     return out
 
 
+def waker_registrations(f):
+    """locations in f behind which the operation state's waker slot holds a waker for the current task: a store of
+    Some(ctx.waker().clone()) into the slot, `slot_waker.clone_from(ctx.waker())`, or the true edge of
+    `slot_waker.will_wake(ctx.waker())` — the three exits of set_waker / register_waker, which the normaliser
+    always inlines.  Returns [(kind, Loc)]."""
+    eb = ExprBuilder(f, multi='phi')
+
+    def from_ctx(e):
+        return any(x[0] == 'call' and x[1].endswith('Context::<\'a>::waker') for x in subexprs(e)) or \
+            any(x[0] == 'arg' and 'waker' in str(x[2] or '') for x in subexprs(e))
+
+    def is_slot(e):
+        ap = access_path(e)
+        return bool(ap) and 'waker' in ap[1].split('.')
+    out = []
+    for loc, s in f.assigns():
+        if not s['lhs']['p']:
+            continue
+        if (s['lhs'].get('ty') or '').startswith('std::option::Option<std::task::Waker>') and is_slot(eb.place(s['lhs'])):
+            e = eb.rvalue(s['rv'])
+            if e[0] == 'agg' and e[1].endswith('Option::Some') and from_ctx(e):
+                out.append(('store', loc))
+    for loc, t in f.calls():
+        c = t.get('callee') or ''
+        if (c.endswith('Clone::clone_from') or c.endswith('Waker::clone_from')) and len(t['args']) == 2 and not f.blocks[loc[0]]['cleanup']:
+            if is_slot(eb.operand(t['args'][0])) and from_ctx(eb.operand(t['args'][1])):
+                out.append(('clone_from', loc))
+    for c in bool_call_switches(f, 'std::task::Waker::will_wake'):
+        t = f.at(c['call_loc'])
+        if len(t['args']) == 2 and is_slot(eb.operand(t['args'][0])) and from_ctx(eb.operand(t['args'][1])) and c['true'] != c['false'] \
+                and len([p_ for p_ in f.pred[c['true']] if not f.blocks[p_]['cleanup']]) == 1:
+            out.append(('will_wake', Loc(c['true'], 0)))
+    return out
+
+
 def param_calls(f, name):
     """calls of closure parameter `name` (Fn::call on &param)"""
     l = f.arg_local(name)
@@ -161,6 +196,11 @@ def life2(r, facts):
             rv = s2['rv']
             if rv['k'] == 'agg' and rv.get('adt') == STATUS and rv.get('variant') == 'Dropped' and any(is_local(o, dst) for o in rv['ops']):
                 ok = True
+            # or wrapped first (a `DropFn(fn)` newtype): what Dropped is built from contains this function reference
+            if not ok and rv['k'] == 'agg' and rv.get('adt') == STATUS and rv.get('variant') == 'Dropped':
+                e_ = ExprBuilder(f).rvalue(rv)
+                if any(x[0] == 'const' and DROP_STATE.rsplit('::', 1)[-1] in str(x[2] or '') and 'fn' in str(x[3] or '') for x in subexprs(e_)):
+                    ok = True
         r.require(ok, 'fnref-dest', 'the drop_state pointer is not stored in Status::Dropped', f.where(loc))
         # generic arguments identical to the impl's (same monomorphic Data layout)
         full = None
@@ -406,11 +446,7 @@ def life6(r, facts):
     wakers = [loc for loc, s in f.assigns() if [p.get('name') for p in s['lhs']['p'] if p['k'] == 'field'][-1:] == ['waker']]
     # `set_waker(&mut shared.waker, ctx.waker())` registers the waker just the same (stores it unless the one stored
     # already wakes the same task)
-    ebw = ExprBuilder(f)
-    for loc, t in f.calls_to('io_uring::op::set_waker'):
-        ap = access_path(ebw.operand(t['args'][0])) if t['args'] else None
-        if ap and ap[1].split('.')[-1] == 'waker':
-            wakers.append(loc)
+    wakers = sorted(set(wakers) | {loc for k, loc in waker_registrations(f)})
     r.require(len(running) == 1, 'poll_inner/running-store', 'expected exactly one `status = Running` store, found %d' % len(running), f.where())
     rets = f.returns()
     for loc, e in running:
